@@ -227,6 +227,18 @@ def scalar_replace(model: Model, module: str, body: List[ast.stmt]) -> List[ast.
             for x in ast.walk(a.target if hasattr(a, "target") else a):
                 if isinstance(x, ast.Name) and isinstance(x.ctx, ast.Store):
                     assigns.setdefault(x.id, []).append(a)
+    order = {}
+
+    def number(stmts):
+        for st_ in stmts:
+            order[id(st_)] = len(order)
+            for fld in ("body", "orelse", "finalbody"):
+                sub = getattr(st_, fld, None)
+                if isinstance(sub, list) and sub and isinstance(sub[0], ast.stmt):
+                    number(sub)
+            for h in getattr(st_, "handlers", []) or []:
+                number(h.body)
+    number(body)
     todo = {}
     for name, asg in assigns.items():
         if len(asg) != 1 or not isinstance(asg[0], (ast.Assign, ast.AnnAssign)):
@@ -247,7 +259,7 @@ def scalar_replace(model: Model, module: str, body: List[ast.stmt]) -> List[ast.
         if not all(isinstance(v, (ast.Name, ast.Constant)) for v in mp.values()):
             continue
         # the arguments must not be re-bound after the carrier is built (their later value would differ from the field's)
-        if any(isinstance(v, ast.Name) and any(getattr(o, "lineno", 0) > a.lineno for o in assigns.get(v.id, [])) for v in mp.values()):
+        if any(isinstance(v, ast.Name) and any(order.get(id(o), 10 ** 9) > order.get(id(a), -1) for o in assigns.get(v.id, [])) for v in mp.values()):
             continue
         uses = [x for x in ast.walk(mod) if isinstance(x, ast.Name) and x.id == name and isinstance(x.ctx, ast.Load)]
         attr_uses = [x for x in ast.walk(mod) if isinstance(x, ast.Attribute) and isinstance(x.value, ast.Name) and x.value.id == name and isinstance(x.ctx, ast.Load) and x.attr in mp]
